@@ -325,9 +325,15 @@ def _svg_op_matrix(H, name, a):
 _OPS = (("matrix", 6), ("translate", 1), ("translate", 2), ("scale", 1), ("scale", 2), ("rotate", 1), ("rotate", 3), ("skewX", 1), ("skewY", 1))
 
 
+def _placeholder(i):
+    # a distinctive *numeric* token, so that any correct tokeniser (split-based or number-regex based) isolates it
+    return str(70001 + i)
+
+
 def _transform_string(H, ops, sep, spell):
-    """Build the attribute text.  Symbolic run: numbers are placeholders @i that the overridden float() turns
-    into symbolic reals (the real regular expressions still do the tokenising); native run: repr of the floats."""
+    """Build the attribute text.  Symbolic run: every number is a distinctive numeric placeholder token that the
+    overridden float() turns into a symbolic real (the real tokenising code still runs, natively, on the text);
+    native run: repr of the floats."""
     vals, parts = [], []
     for name, k in ops:
         toks = []
@@ -335,7 +341,7 @@ def _transform_string(H, ops, sep, spell):
             i = len(vals)
             v = H.real(f"arg{i}")
             vals.append(v)
-            toks.append(f"@{i}" if H.mode == "sym" else repr(v))
+            toks.append(_placeholder(i) if H.mode == "sym" else repr(v))
         nm = {"spec": name, "lower": name.lower(), "upper": name.upper()}[spell]
         parts.append(f"{nm}({sep.join(toks)})")
     return vals, parts
@@ -352,7 +358,7 @@ def dispatch(H):
     vals, parts = _transform_string(H, ops, sep, spell)
     text = H.case("between", (" ", ", ", "")).join(parts)
     if H.mode == "sym":
-        table = {f"@{i}": v for i, v in enumerate(vals)}
+        table = {_placeholder(i): v for i, v in enumerate(vals)}
         H.override(float, lambda I, s=0.0: table[s] if isinstance(s, str) and s in table else float(s))
     M, e = H.catch(parse_svg_transform, text)
     H.prove(e is None, "dispatch.no_exception_on_valid_list")
